@@ -269,7 +269,7 @@ func TestC24(t *testing.T) {
 			}
 			if (mi+i)%23 == 0 && len(m.opts) == 0 {
 				rtMu.Lock()
-				bad := runtimeCheck(name, m.src)
+				bad := runtimeCheck(name, m.src, base)
 				rtMu.Unlock()
 				r.Count("runtime_load_checks", 1)
 				if bad != "" {
@@ -296,28 +296,69 @@ func loadErrs(name string) int64 {
 	return n
 }
 
-// runtimeCheck loads src through the real Runtime and feeds one line.
-func runtimeCheck(name, src string) string {
+// runtimeCheck puts the defective program through the real Runtime in a short
+// history: defective, the same bytes again, the valid base program, the
+// defective bytes once more. Every defective submission must be refused and
+// counted, never run; the base program, once loaded, keeps running.
+func runtimeCheck(name, src, base string) string {
 	lines := make(chan *logline.LogLine)
 	var wg sync.WaitGroup
 	rt, err := mrt.New(lines, &wg, "", metrics.NewStore())
 	if err != nil {
 		return "runtime.New: " + err.Error()
 	}
+	defer mrt.ProgLoadErrors.Delete(name)
+	defer mrt.ProgLoads.Delete(name)
+	defer vmLines.Delete(name)
 	before := loadErrs(name)
-	cerr := rt.CompileAndRun(name, strings.NewReader(src))
-	lines <- logline.New(nil, "f", "a=1 b=foo c=1.5 d=2 e=x f=0.5 t=2021-03-04")
+	feed := func() {
+		lines <- logline.New(nil, "f", "a=1 b=foo c=1.5 d=2 e=x f=0.5 t=2021-03-04")
+		lines <- logline.New(nil, "f", "barrier")
+		lines <- logline.New(nil, "f", "barrier")
+	}
+	processed := func() int64 {
+		if c, ok := vmLines.Load(name); ok {
+			return atomic.LoadInt64(c.(*int64))
+		}
+		return 0
+	}
+	what := ""
+	refused := 0
+	for step, sub := range []struct {
+		text   string
+		broken bool
+	}{{src, true}, {src, true}, {base, false}, {src, true}} {
+		cerr := rt.CompileAndRun(name, strings.NewReader(sub.text))
+		feed()
+		switch {
+		case sub.broken && cerr == nil:
+			what = fmt.Sprintf("submission %d (the defective program%s) was accepted: CompileAndRun returned no error", step+1, map[int]string{1: ", same bytes as just refused", 3: ", same bytes as refused before the valid version was loaded"}[step])
+		case !sub.broken && cerr != nil:
+			what = "the valid base program was refused after the defective one: " + cerr.Error()
+		}
+		if what != "" {
+			break
+		}
+		if sub.broken {
+			refused++
+		}
+		if step < 2 && processed() > 0 {
+			what = "a VM for the rejected program processed a line"
+			break
+		}
+		if loadErrs(name) != before+int64(refused) {
+			what = fmt.Sprintf("prog_load_errors_total[%s] moved by %d after %d refused submissions", name, loadErrs(name)-before, refused)
+			break
+		}
+	}
 	close(lines)
 	wg.Wait()
-	defer mrt.ProgLoadErrors.Delete(name)
-	if cerr == nil {
-		return "CompileAndRun returned no error"
+	// everything fed has been processed now: 3 lines after the valid version
+	// was loaded and 3 after the last refused submission
+	// (the last line fed before the valid version was loaded may still have been
+	// in the loader's hand and reach it too: 6 or 7)
+	if n := processed(); what == "" && (n < 6 || n > 7) {
+		what = fmt.Sprintf("the valid version, loaded before the last refused submission, processed %d of the 6 lines fed since it was loaded", n)
 	}
-	if c, ok := vmLines.Load(name); ok && atomic.LoadInt64(c.(*int64)) > 0 {
-		return "a VM for the rejected program processed a line"
-	}
-	if loadErrs(name) != before+1 {
-		return fmt.Sprintf("prog_load_errors_total[%s] went from %d to %d", name, before, loadErrs(name))
-	}
-	return ""
+	return what
 }
